@@ -352,7 +352,10 @@ def data_grid(arr, spacing=None, medium_index=None, illum_wavelen=None,
 
     if np.isscalar(spacing):
         spacing = np.repeat(spacing, 2)
-    if np.isscalar(z) and (len(arr) > 1 or arr.ndim == 2):
+    n_extra_dims = 0 if extra_dims is None else len(extra_dims)
+    if np.isscalar(z) and (len(arr) > 1 or arr.ndim == 2 + n_extra_dims):
+        # no z axis yet (a single row of pixels with extra dimensions also
+        # has len(arr) == 1)
         arr = np.expand_dims(arr, axis=0)
     coords = make_coords(arr.shape, spacing, z)
     if extra_dims is None:
